@@ -9,6 +9,11 @@ import (
 	"nriverif/ev"
 )
 
+// KnownD12 is the known-finding slug for D12: a connection that ends in the middle of a frame
+// fails the request with "unexpected EOF" when the runtime's calling goroutine had not started to
+// wait for the response yet (schedule dependent). When active, that outcome is counted, not reported.
+const KnownD12 = "c07-truncated-frame-race"
+
 // KnownD11 is the known-finding slug for D11 (undecodable response vetoes the request). When
 // the driver lists it as active the generator does not produce that fault.
 const KnownD11 = "c07-undecodable-response"
@@ -33,12 +38,14 @@ type PluginSpec struct {
 
 // Fault is what goes wrong with a plugin during the main request. Kind:
 //
-//	none | cut | close | hang | error | wrongtype | undecodable | garbage
+//	none | cut | close | hang | error | wrongtype | undecodable | garbage | dying
 type Fault struct {
 	Kind string `json:"kind"`
 
 	Dir string `json:"dir,omitempty"` // cut: "r2p" | "p2r"
-	K   int    `json:"k,omitempty"`   // cut: bytes let through after the request starts flowing
+	// cut: bytes let through after the request starts flowing. dying: the plugin had sent the
+	// first K bytes (1..71) of a 72-byte frame of its own when it died on the request's arrival
+	K int `json:"k,omitempty"`
 
 	When    string `json:"when,omitempty"`     // close: before | during | after
 	DelayUs int    `json:"delay_us,omitempty"` // close before: pause between the close and the request
@@ -101,8 +108,8 @@ func cutK(t *rapid.T) int {
 }
 
 func faultGen(t *rapid.T, idx int, slowLeft *int) Fault {
-	kinds := []string{"cut", "close", "error", "cut", "undecodable", "hang", "wrongtype", "cut", "garbage", "close", "error",
-		"cut", "undecodable", "wrongtype", "close", "cut", "hang", "garbage"}
+	kinds := []string{"cut", "close", "error", "dying", "cut", "undecodable", "hang", "wrongtype", "cut", "garbage", "close", "error",
+		"cut", "undecodable", "dying", "wrongtype", "close", "cut", "hang", "garbage"}
 	k := rapid.SampledFrom(kinds).Draw(t, "kind")
 	if k == "undecodable" && ev.Known(KnownD11) {
 		ev.Get("C07").AddExtra("excluded_"+KnownD11, 1)
@@ -121,6 +128,8 @@ func faultGen(t *rapid.T, idx int, slowLeft *int) Fault {
 	case "cut":
 		f.Dir = rapid.SampledFrom([]string{"p2r", "p2r", "r2p"}).Draw(t, "dir")
 		f.K = cutK(t)
+	case "dying":
+		f.K = rapid.IntRange(1, 71).Draw(t, "k")
 	case "close":
 		f.When = rapid.SampledFrom([]string{"before", "during", "during", "after"}).Draw(t, "when")
 		switch f.When {
